@@ -1,6 +1,6 @@
-import ReplicatModel.LocalFS
+import ReplicatModel.LocalUpload
 /-! Lemmas for the local-backend upload model (C03). -/
-namespace Replicat.LocalFS
+namespace Replicat.LocalUpload
 open List
 
 theorem find?_congr'' {α : Type} {p q : α → Bool} (l : List α) (h : ∀ x ∈ l, p x = q x) : l.find? p = l.find? q := by
@@ -142,4 +142,4 @@ theorem vget_putObj_congr (fs fs' : FS) (name : Path) (data : Bytes) (h : ∀ n,
     · subst hnn; rw [lookup_set_same, lookup_set_same]
     · rw [lookup_set_other _ _ _ _ hnn, lookup_set_other _ _ _ _ hnn]; exact this
 
-end Replicat.LocalFS
+end Replicat.LocalUpload
